@@ -17,8 +17,14 @@ fn producers_of(b: &[u8]) -> Option<Producers> {
     producers(&c.data).ok()
 }
 
+/// an input producers section the reference decoder rejects (walrus warns and keeps what it read up to the
+/// error): nothing is demanded about its fields, only that walrus is recorded once
+fn producers_malformed(b: &[u8]) -> bool {
+    decode::decode(b).ok().and_then(|m| m.customs.iter().find(|c| c.name == "producers").map(|c| producers(&c.data).is_err())).unwrap_or(false)
+}
+
 /// Check the producers model: input fields preserved (order of fields and of values), walrus exactly once.
-fn check_producers(input: Option<&Producers>, output: Option<&Producers>) -> Result<(), String> {
+fn check_producers(input: Option<&Producers>, output: Option<&Producers>, input_malformed: bool) -> Result<(), String> {
     let output = match output {
         Some(o) => o,
         None => return Err("no producers section in the output although generation is on".into()),
@@ -33,6 +39,9 @@ fn check_producers(input: Option<&Producers>, output: Option<&Producers>) -> Res
                 return Err(format!("walrus recorded in field {}", f.0));
             }
         }
+    }
+    if input_malformed {
+        return Ok(());
     }
     let empty: Producers = vec![];
     let input = input.unwrap_or(&empty);
@@ -55,6 +64,12 @@ pub fn run(c: &Case, rep: &mut Report) {
     let input = c.input.unwrap_or(&[]);
     let in_debug = debug_sections(input);
     let in_prod = producers_of(input);
+    let in_prod_bad = producers_malformed(input);
+    if in_prod_bad {
+        rep.count("inputs-with-malformed-producers-section", 1);
+    }
+    // there is DWARF to carry only if .debug_info holds at least one unit header
+    let in_has_units = decode::decode(input).map(|m| m.customs.iter().any(|c| c.name == ".debug_info" && c.data.len() >= 11)).unwrap_or(false);
     let v_default = feat::validate(input, false);
     let v_stable = feat::validate(input, true);
     let mut ok_masks = 0;
@@ -101,7 +116,7 @@ pub fn run(c: &Case, rep: &mut Report) {
         if mask & 1 == 0 && !od.is_empty() {
             rep.violation(c, "C14/debug-sections-without-generate-dwarf", &format!("cfg mask {}: output has {:?}", mask, od), &[("out.wasm", out)]);
         }
-        if mask & 1 != 0 && !in_debug.is_empty() && od.is_empty() {
+        if mask & 1 != 0 && in_has_units && od.is_empty() {
             rep.violation(c, "C14/debug-sections-dropped-with-generate-dwarf", &format!("cfg mask {}: input has {:?}, output none", mask, in_debug), &[("out.wasm", out)]);
         }
         if mask & 1 != 0 && in_debug.is_empty() && !od.is_empty() {
@@ -129,7 +144,7 @@ pub fn run(c: &Case, rep: &mut Report) {
                     rep.violation(c, "C14/producers-section-although-disabled", &format!("cfg mask {}", mask ^ 16), &[("off.wasm", off)]);
                 }
             }
-            if let Err(e) = check_producers(in_prod.as_ref(), producers_of(out).as_ref()) {
+            if let Err(e) = check_producers(in_prod.as_ref(), producers_of(out).as_ref(), in_prod_bad) {
                 rep.violation(c, "C14/producers-model", &format!("cfg mask {}: {}", mask, e), &[("out.wasm", out)]);
             }
         }
@@ -139,7 +154,7 @@ pub fn run(c: &Case, rep: &mut Report) {
     for r in 1..=5 {
         if let Some(o) = end.get(&format!("round.{}", r)) {
             rounds += 1;
-            if let Err(e) = check_producers(in_prod.as_ref(), producers_of(o).as_ref()) {
+            if let Err(e) = check_producers(in_prod.as_ref(), producers_of(o).as_ref(), in_prod_bad) {
                 rep.violation(c, "C14/producers-model-after-repeated-round-trips", &format!("after {} round trips: {}", r, e), &[("out.wasm", o)]);
                 break;
             }
